@@ -810,6 +810,7 @@ func Run53(t *testing.T, pl any) *simcore.Result {
 			res.Faults[k] += int(n)
 		}
 	}
+	checkResources()
 	res.LogHash = uint64(w.log)
 	res.StateFP = uint64(w.log)
 	res.NonTrivial = len(res.Faults) > 0
